@@ -27,9 +27,9 @@ EXPLANATION = (
     'memory geometry/calibration field order and formats agree, SIZE_* constants equal the summed calcsize, page addressing identical '
     'for read and write; R6 YAML: as_file_object keys = from_file_object keys with key<->attribute agreement, envelope keys/type/version '
     'written = compared on read (lighthouse and parameter files); R7 deck info section: 0x20 = 2 + calcsize(<LLL18s), masks are distinct '
-    'single bits, info offsets; loco anchors: <fff? = page length, id list = 1 + max; R8 write-only images covered in C13.R4/R5.')
+    'single bits, info offsets; loco anchors: <fff? = page length, id list = 1 + max; the deck name extraction is total for an unterminated 18-byte field; R8 LED timing image: record layout, flags byte, terminator, and no all-zero record before the terminator (shared with C13.R5); trajectory pieces are covered in C13.R4.')
 ASSUMPTIONS = ['crc32/checksum functions are correct; only which bytes they cover and which byte they are compared with is decided']
-FLOORS = {'R1': 9, 'R2': 7, 'R3': 7, 'R4': 3, 'R5': 12, 'R6': 12, 'R7': 10}
+FLOORS = {'R1': 9, 'R2': 7, 'R3': 7, 'R4': 3, 'R5': 12, 'R6': 12, 'R7': 11, 'R8': 4}
 
 
 def packs(func):
@@ -311,6 +311,10 @@ def check(ctx):
     pt = fold_in(m.func('cflib/crazyflie/param.py', 'Param.__init__'), m.mod('cflib/crazyflie/param.py').consts['PersistentParamState'].args[1])
     ctx.inst('R6', ('cflib/crazyflie/param.py', ''), 'param-state-order', pt == 'is_stored default_value stored_value', 'PersistentParamState fields: %s' % pt)
 
+    # =========================== R8: write-only LED timing image (shared with C13.R5) ==========
+    from .c13 import led_timing_rules
+    led_timing_rules(ctx, 'R8')
+
     # =========================== R7: deck info / loco ============================================
     D = m.cls(DK, 'DeckMemory')
     Mg = m.cls(DK, 'DeckMemoryManager')
@@ -323,6 +327,15 @@ def check(ctx):
     dd = [s for s in walk_own(ps.node) if isinstance(s, ast.Assign) and f2 and s.value is f2[0]]
     got = [norm(e) for e in dd[0].targets[0].elts] if dd and isinstance(dd[0].targets[0], ast.Tuple) else []
     ctx.inst('R7', ps, 'info-field-order', got == ['self.required_hash', 'self.required_length', 'self._base_address', '_name'], 'destinations %s' % got)
+    nm = [s_ for s_ in walk_own(ps.node) if isinstance(s_, ast.Assign) and norm(s_.targets[0]) == 'self.name']
+    ctx.need(len(nm) == 1, 'DeckMemory._parse: name extraction not found')
+    nt = norm(nm[0].value)
+    total_forms = ("_name.split(b'\\x00')[0].decode()", "_name.partition(b'\\x00')[0].decode()", "_name.split(b'\\x00', 1)[0].decode()")
+    partial = any(isinstance(c, ast.Call) and isinstance(c.func, ast.Attribute) and c.func.attr in ('index', 'find', 'rindex', 'rfind') and norm(c.func.value) == '_name' for c in ast.walk(nm[0].value))
+    if nt not in total_forms and not partial:
+        ctx.need(False, 'DeckMemory._parse: name extraction %s not recognised' % nt)
+    ctx.inst('R7', ps, 'info-name-total', nt in total_forms, 'the 18-byte name field has no terminator when the name is 18 characters long: the extraction must not depend on finding a NUL '
+             '(index() raises -> the deck is dropped as invalid, find() returns -1 -> last character lost); found %s' % nt)
     si = class_const(Mg, 'SIZE_OF_DECK_MEM_INFO')
     ctx.inst('R7', (DK, 'DeckMemoryManager'), 'info-size', si == 2 + struct.calcsize('<LLL18s'), 'SIZE_OF_DECK_MEM_INFO %s must equal 2 + calcsize(<LLL18s) = 32' % si)
     masks1 = {k: fold_in(ps, v) for k, v in D.consts.items() if k.startswith('MASK_') and 'RESET' not in k}
@@ -367,6 +380,8 @@ def check(ctx):
 
 
 VARIANTS = [
+    M('R7', DK, "                self.name = _name.split(b'\\x00')[0].decode()", "                self.name = _name[:_name.index(b'\\x00')].decode()", 'name needs a terminator'),
+    M('R8', 'cflib/crazyflie/mem/led_timings_driver_memory.py', "            if (timing['time'] & 0xFF) != 0 or led != 0 or extra != 0:", "            if timing['time'] != 0 or led != 0 or extra != 0:", 'filter tests the unmasked time'),
     M('R1', I2C, "                     self.elements['pitch_trim'],\n                     self.elements['roll_trim']] = struct.unpack('<BBBff',", "                     self.elements['roll_trim'],\n                     self.elements['pitch_trim']] = struct.unpack('<BBBff',", 'reader trims swapped'),
     M('R1', I2C, "                        self.mem_handler.read(self, 16, 5)", "                        self.mem_handler.read(self, 16, 4)", 'second read short'),
     M('R1', I2C, "                self.elements['radio_address'] >> 32,", "                self.elements['radio_address'] >> 24,", 'address split'),
